@@ -394,6 +394,14 @@ def data_path(F, chk, seen, ground, only_modes=False):
             n += 1
             chk.instance('R-FSM', name, 'CSI data: %s pushes %d parameter(s), dispatches nothing' % (what, want_push), not bad and bool(outs),
                          detail='outcomes %s' % sorted(outs, key=str)[:3], what='CSI %s: expected %d parameter push and no listener call, got %s' % (what, want_push, sorted(bad, key=str)[:2]))
+            if what == 'digit':
+                # whatever was collected so far, the digit joins the digit run (a run is never truncated:
+                # leading zeros would otherwise change the value)
+                bad_d = [o for o in outs if [e for e in o[1] if e[0] == 'strpush'] != [('strpush', c)]]
+                n += 1
+                chk.instance('R-FSM', name, 'CSI data: every digit is appended to the digit run', not bad_d and bool(outs),
+                             detail='outcomes %s' % sorted(outs, key=str)[:3],
+                             what='a digit inside a CSI parameter must always be appended to the run being collected, got %s' % sorted(bad_d, key=str)[:2])
         outs = F.step(cs, ['H'])
         bad = [o for o in outs if len(pushes(o[1])) != 1 or [e[0] for e in calls(o[1])] != ['csi_dispatch'] or
                [e[0] for e in o[1] if e[0] != '<-'] != ['push', 'csi_dispatch']]
@@ -422,6 +430,8 @@ def data_path(F, chk, seen, ground, only_modes=False):
                                      (['[', '1', '2', ';', '3', 'H'], ('csi_dispatch', 'H', (12, 3), False), 'decimal accumulation, two parameters'),
                                      (['[', '?', '2', '5', 'l'], ('csi_dispatch', 'l', (25,), True), 'private parameter'),
                                      (['[', '9', '9', '9', '9', '9', 'C'], ('csi_dispatch', 'C', (9999,), False), 'cap at 9999'),
+                                     (['[', '0', '0', '0', '0', '0', '0', '5', 'C'], ('csi_dispatch', 'C', (5,), False), 'leading zeros do not change the value'),
+                                     (['[', '0', '1', '2', '3', '4', '5', 'C'], ('csi_dispatch', 'C', (9999,), False), 'cap at 9999 with a leading zero'),
                                      (['[', '1', ';', 'm'], ('csi_dispatch', 'm', (1, 0), False), 'trailing empty parameter'))):
             outs = F.step(es, script)
             got = [[e for e in o[1] if e[0] == 'csi_dispatch'] for o in outs]
